@@ -149,7 +149,7 @@ func init() {
 		ID: "C13",
 		Rule: "concurrent: 1-5 goroutines issue Get (own cancellable contexts) / Commit / Rollback / Buffer / Close on one Channel whose source (chan int, <-chan int, chan any; buffered or not) is fed 1,2,3,... by a feeder, closed or ctx-cancelled mid-run in some; histories checked by porcupine against the sequential model, plus end-of-run conservation (committed ++ Buffer() ++ left-in-source == fed, in order); " +
 			"seq: every sequence up to length 7 over {feed, Get, Commit, Rollback, Buffer} (complete) compared step by step incl. VerifState; close-race: micro-trials of Close racing a hot Get loop over a pre-filled source (after Done is observed len(source) must not change). " +
-			"non-trivial = operations overlapped / a rollback with partial re-read occurred / Close landed while the getter was running; distinct = distinct completion-order signatures",
+			"commit-vs-close: Commit and Close overlapping under mutex contention, an observer reading Buffer() after Done: a Commit that returned nil is not visible as still-pending values after Done. non-trivial = operations overlapped / a rollback with partial re-read occurred / Close landed while the getter was running; distinct = distinct completion-order signatures",
 		Assumptions: []string{
 			"the Channel is the only receiver of its source, so source values 1,2,3,... identify what was taken",
 			"a Get error is legal only when the Channel is closed or the driver cancelled that Get's own context",
@@ -158,6 +158,7 @@ func init() {
 			{Name: "concurrent-porcupine", N: core.TierN(2000, 120000), Batch: 50, Run: c13Concurrent},
 			{Name: "seq-exhaustive", N: core.TierN(5, 25), Batch: 1, Run: c13Seq},
 			{Name: "close-race", N: core.TierN(48, 1920), Batch: 3, Run: c13CloseRace},
+			{Name: "commit-vs-close", N: core.TierN(40, 1600), Batch: 4, Run: c13CommitVsClose},
 		},
 	})
 }
@@ -658,3 +659,78 @@ func spin(n int) {
 }
 
 var _ = sync.Mutex{}
+
+// c13CommitVsClose: a Commit and a Close overlap while other goroutines keep the Channel's mutex busy with Buffer()
+// calls; an observer waits for Done and then reads Buffer(). A Commit that reports success took effect before the
+// Close (after it, Commit fails), hence before Done was closed: what the observer reads after Done cannot still hold
+// the values that Commit dropped.
+func c13CommitVsClose(c *core.Ctx) {
+	trials := 60
+	if c.Thorough() {
+		trials = 150
+	}
+	hits := 0
+	for t := 0; t < trials && !c.Violated(); t++ {
+		n := 200 + c.Rng.IntN(2000)
+		src := make(chan int, n)
+		for i := 1; i <= n; i++ {
+			src <- i
+		}
+		ch, err := bigbuff.NewChannel(nil, time.Millisecond, src)
+		if err != nil {
+			c.Violate("newchannel-error", "%v", err)
+			return
+		}
+		for i := 0; i < n; i++ {
+			if _, err := ch.Get(context.Background()); err != nil {
+				c.Violate("get-error", "%v", err)
+				return
+			}
+		}
+		stop := make(chan struct{})
+		var busy sync.WaitGroup
+		for g := 0; g < 3; g++ {
+			busy.Add(1)
+			go func() {
+				defer busy.Done()
+				for {
+					select {
+					case <-stop:
+						return
+					default:
+						ch.Buffer()
+					}
+				}
+			}()
+		}
+		var commitErr error
+		var seenAfterDone int
+		spinA, spinB := c.Rng.IntN(60), c.Rng.IntN(60)
+		committed := core.Go(func() { spin(spinA); commitErr = ch.Commit() })
+		closed := core.Go(func() { spin(spinB); ch.Close() })
+		observed := core.Go(func() {
+			<-ch.Done()
+			seenAfterDone = len(ch.Buffer())
+		})
+		ok := core.AwaitDone(committed, 10000) && core.AwaitDone(closed, 10000) && core.AwaitDone(observed, 10000)
+		close(stop)
+		busy.Wait()
+		if !ok {
+			c.Violate("blocked", "Commit / Close / Buffer did not all return")
+			c.SetDump(core.DumpAll())
+			return
+		}
+		if commitErr == nil {
+			hits++
+			if seenAfterDone != 0 {
+				c.Violate("commit-after-done", "Commit returned nil, yet Buffer() called after Done was closed still returned %d uncommitted values (now %d): the Commit took effect after the Channel was closed", seenAfterDone, len(ch.Buffer()))
+			}
+		} else if seenAfterDone != n {
+			c.Violate("commit-error-but-dropped", "Commit returned %v, but Buffer() after Done holds %d of %d values", commitErr, seenAfterDone, n)
+		}
+	}
+	c.Op("trial", trials)
+	c.Count("commits_that_won", hits)
+	c.Nontrivial()
+	c.Sig("commit-vs-close", c.Index)
+}
